@@ -20,6 +20,8 @@ mod c26;
 mod c28;
 mod c29f;
 mod c21;
+mod c19;
+mod kindwire;
 mod gens;
 mod lang;
 mod vrlrun;
@@ -60,6 +62,7 @@ const EXECS: &[Exec] = &[
     c28::exec,
     c29f::exec,
     c21::exec,
+    c19::exec,
 ];
 
 /// Run one case (`op` + inputs) on the implementation: the first module that recognises the op answers.
@@ -99,6 +102,7 @@ fn generate(prop: &str, sink: &mut sink::Sink, rng: &mut rng::Rng, n: u64) -> bo
             c29f::generate(sink, rng, n);
         }
         "C21" => c21::generate(sink, rng, n),
+        "C19" => c19::generate(sink, rng, n),
         _ => return false,
     }
     true
